@@ -133,7 +133,15 @@ var e1Assumptions = []string{
 
 func init() {
 	for _, p := range []string{"C03", "C04"} {
-		checks[p] = func(rc *runCtx) int { return runE1Check(rc, e1Assumptions, nil) }
+		p := p
+		checks[p] = func(rc *runCtx) int {
+			extraFindings = func(cov map[string]interface{}) []Finding {
+				f, n := mapValueKinds(p)
+				cov["value_kind_scripts_enumerated"] = n
+				return f
+			}
+			return runE1Check(rc, e1Assumptions, nil)
+		}
 	}
 }
 
